@@ -58,6 +58,13 @@ func (x *Exec) render(q *Query) string {
 
 const preludeExtra = `(declare-fun mcard ((Array Int Bool)) Int)
 (declare-fun chancap (Int) Int)
+(declare-fun pow2m1 (Int) Int)
+`
+
+// Facts about pow2m1(n) = 2^n - 1 that need induction (stated, not proved by the solver; listed
+// as an assumption in the evidence): non-negative, and a < b implies 2*pow2m1(a)+1 <= pow2m1(b).
+const pow2m1Axioms = `(assert (forall ((a Int)) (! (=> (<= 0 a) (<= 0 (pow2m1 a))) :pattern ((pow2m1 a)))))
+(assert (forall ((a Int) (b Int)) (! (=> (and (<= 0 a) (< a b)) (<= (+ (* 2 (pow2m1 a)) 1) (pow2m1 b))) :pattern ((pow2m1 a) (pow2m1 b)))))
 `
 
 type solverDef struct {
